@@ -918,7 +918,9 @@ unary_fns: dict[str, UnaryCallable] = {
 def binary_e_fn(
     x: Union[int, float], y: Union[int, float]
 ) -> Union[int, float]:
-    if isinstance(x, int) and isinstance(y, int):
+    if isinstance(x, int) and isinstance(y, int) and abs(y) <= 308:
+        # larger exponents do not fit a double: float arithmetic below
+        # overflows (an expression error) instead of looping y times
         if y >= 0:
             for i in range(y):
                 x = x * 10
@@ -1138,7 +1140,11 @@ def expr_fn(
     if isinstance(ret, float):
         if ret.is_integer():  # False for inf and nan
             return str(int(ret))
-    return str(ret)
+    try:
+        return str(ret)
+    except ValueError:
+        # integer too large for decimal conversion
+        return expr_error("overflow")
 
 
 def padleft_fn(
